@@ -65,9 +65,9 @@ class Run:
         if fn is not None:
             rel = fn.rel
             if line is None:
-                line = getattr(node, 'lineno', None) or fn.node.lineno
+                line = getattr(node, '_src_lineno', None) or getattr(node, 'lineno', None) or fn.node.lineno
         elif node is not None and line is None:
-            line = getattr(node, 'lineno', None)
+            line = getattr(node, '_src_lineno', None) or getattr(node, 'lineno', None)
         self.obs.append(Ob(rule, key, bool(ok), msg, rel, line, nontrivial, detail))
         return bool(ok)
 
@@ -84,7 +84,7 @@ class Run:
     def note(self, rule, msg, fn=None, node=None):
         where = ''
         if fn is not None:
-            where = '%s:%s ' % (fn.rel, getattr(node, 'lineno', fn.node.lineno))
+            where = '%s:%s ' % (fn.rel, getattr(node, '_src_lineno', None) or getattr(node, 'lineno', fn.node.lineno))
         self.notes.append('%s %s%s' % (rule, where, msg))
 
     def floor(self, rule, count, minimum):
